@@ -164,6 +164,32 @@ fn parse_check(s: &str) -> Result<String, String> {
     Ok(output)
 }
 
+/// The score of a derivation, recomputed from its printed form with the weights of the property's scoring (a node
+/// labelled Public 10, DP 5, PUP 2, Published 1, SD 1, Private 0), every occurrence of a node in the printed TREE
+/// counted (a sub-query read twice counts twice, as the library's own fold over `inputs()` does)
+fn ref_score(deriv: &str) -> f64 {
+    let mut total = 0.0;
+    let mut rest = deriv;
+    while let Some(lb) = rest.find('[') {
+        let rb = match rest[lb..].find(']') {
+            Some(i) => lb + i,
+            None => break,
+        };
+        let rule = &rest[lb + 1..rb];
+        let output = rule.rsplit(" → ").next().unwrap_or(rule).trim();
+        total += match output {
+            "Pub" => 10.0,
+            "DP" => 5.0,
+            "PUP" => 2.0,
+            "Pubd" => 1.0,
+            "SD" => 1.0,
+            _ => 0.0,
+        };
+        rest = &rest[rb + 1..];
+    }
+    total
+}
+
 fn pu_variants() -> Vec<(&'static str, PrivacyUnit)> {
     vec![
         ("all-protected", crate::c18::privacy_unit()),
@@ -199,7 +225,7 @@ pub fn run(ctx: &Ctx) -> Report {
         // plus the set operations whose arms reach their aggregation at different depths, and
         // plus the inner joins of a depth-2 join with a base table (either side): nested joins are where a
         // sub-tree has several derivations with the same output label and different scores
-        all.extend(crate::sqlgen::composed(3).into_iter().filter(|g| g.term.as_ref().map_or(false, |t| t.starts_with("J.inner.eq.s1(") && t.contains("(J.") || t.starts_with("J.inner.eq.s1(") && t.contains(", J.") || t.starts_with("S.") && t.contains("P1c("))));
+        all.extend(crate::sqlgen::composed(3).into_iter().filter(|g| g.term.as_ref().map_or(false, |t| t.starts_with("J.inner.eq.s1(") && t.contains("(J.") || t.starts_with("J.inner.eq.s1(") && t.contains(", J.") || t.starts_with("S.") && t.contains("P1c(") || t.starts_with("W[") && t.contains("c0:J."))));
     }
     // quick: every third hand-written query and every composed term of depth 1; thorough: everything (depth 3)
     for (i, g) in all.into_iter().enumerate() {
@@ -288,7 +314,9 @@ pub fn run(ctx: &Ctx) -> Report {
                     // the selected derivation
                     let sel = events.iter().find_map(|e| if let Event::Selected { relation } = e { Some(*relation) } else { None });
                     let rewritten: Vec<(usize, f64)> = events.iter().filter_map(|e| if let Event::Rewritten { relation, score } = e { Some((*relation, *score)) } else { None }).collect();
-                    let k = sel.and_then(|s| rewritten.iter().position(|(p, _)| *p == s));
+                    // candidates are identified by the address of their rewritten relation; a losing candidate is dropped and its
+                    // address can be reused by a later one, so the live (selected) one is the LAST event with that address
+                    let k = sel.and_then(|s| rewritten.iter().rposition(|(p, _)| *p == s));
                     let (sel_deriv, _sel_out, sel_score) = match k.and_then(|k| cands.get(k)) {
                         Some(c) => *c,
                         None => {
@@ -335,6 +363,17 @@ pub fn run(ctx: &Ctx) -> Report {
                     let ties = cands.iter().filter(|c| c.2 == best).count();
                     if ties > 1 {
                         r.reach("reach", "ties-in-score");
+                    }
+                    // the same with scores recomputed by the harness from the printed derivations
+                    let ref_best = cands.iter().map(|c| ref_score(c.0)).fold(f64::NEG_INFINITY, f64::max);
+                    let ref_sel = ref_score(sel_deriv);
+                    if ref_sel < ref_best {
+                        r.violation(
+                            format!("not-best-score(recomputed) entry={entry}"),
+                            &case_id,
+                            json!({"query": sql, "setting": sname, "selected_score_recomputed": ref_sel, "best_score_recomputed": ref_best, "selected": sel_deriv, "library_score_of_selected": sel_score,
+                                   "a_better_one": cands.iter().find(|c| ref_score(c.0) == ref_best).map(|c| c.0.clone())}),
+                        );
                     }
                     if sel_score < best {
                         r.violation(
